@@ -347,4 +347,33 @@ theorem parseFloat64 (cfg : Cfg) : parseFloat 64 (genEnv cfg) = MinLex.parseFloa
   funext F int frac e
   exact parseFloat64_of_powLt (powLt_genPow cfg.compact) rfl F int frac e
 
+-- ---------------------------------------------------------------- for the regenerated tables
+theorem pow64_genPow (c : Bool) (cap : Option Nat) (x : Big) (e : Nat) :
+    pow 64 cap (genPow c) x e = MinLex.pow cap (genPow c) x e := by
+  exact pow64 (powLt_genPow c) cap x e
+
+theorem bigintPow64_genPow (c : Bool) (cap : Option Nat) (x : Big) (b e : Nat) :
+    bigintPow 64 cap (genPow c) x b e = MinLex.bigintPow cap (genPow c) x b e := by
+  exact bigintPow64 (powLt_genPow c) cap x b e
+
+theorem parseMantissa64_genPow (c : Bool) (cap : Option Nat) (int frac : List UInt8) (md : Nat) :
+    parseMantissa 64 cap (genPow c) int frac md = MinLex.parseMantissa cap (genPow c) int frac md := by
+  exact parseMantissa64 (powLt_genPow c) cap int frac md
+
+theorem slow64_genPow (c : Bool) (cap : Option Nat) : slow 64 cap (genPow c) = MinLex.slow cap (genPow c) := by
+  funext F num fp int frac; exact slow64 (powLt_genPow c) cap F num fp int frac
+
+/-- `PowLt` cannot be dropped: the parametric model casts the looked-up small power `as Limb`
+    (`% 2^w`), the 64-bit model does not; they differ on a (non-generated) table holding an entry
+    `≥ 2^64`.  For the regenerated tables (`powLt_genPow`) there is no difference. -/
+example : pow 64 none ⟨false, [1, B + 5], [], [], 0⟩ [1] 1 = some [5] ∧
+    MinLex.pow none ⟨false, [1, B + 5], [], [], 0⟩ [1] 1 = some [5, 1] := by decide
+
+-- non-vacuity: the two models side by side on a slow-path input ("0.1", estimate of `Props/SlowPath`)
+example : slow 64 (capW 64 false) (genPowW 64 false) Gen.F64 (parseNumber [] [49] 0)
+      ⟨0xCCCCCCCCCCCCCCCC, 1008⟩ [] [49] =
+    MinLex.slow (some 62) (genPow false) Gen.F64 (parseNumber [] [49] 0)
+      ⟨0xCCCCCCCCCCCCCCCC, 1008⟩ [] [49] := by
+  rw [genPowW64, capW64]; exact slow64 (powLt_genPow false) _ _ _ _ _ _
+
 end MinLex.W.At64
